@@ -122,6 +122,29 @@ feature('walrus-comp-if',
         ['[{R1:$X} for q in _it() if ({B1:$X/walrus-in-comp} := _o())]', '{R2:$X}'],
         ['[{R1} for q in _it() if _id($X := _o(), $X__s := {d1})]', '{R2}'], binds='$X', c02=False, c03=False)
 
+# ---- a rebinding in the region of an earlier binding made "out of source order" (star import resolved late, walrus inside the value)
+feature('star-import-then-rebind',
+        ['from m1 import *', '{B1:x1/assign} = 0', 'if _o():', '    {R1:x1}', '{R2:x1}'],
+        ['from m1 import *', 'x1 = 0; x1__s = {d1}', 'if _o():', '    {R1}', '{R2}'], c02=True, c03=True)
+feature('rebind-then-star-import',
+        ['{B1:x1/assign} = 0', 'from m1 import *', 'if _o():', '    {R1:fn1}', '{B2:fn1/assign} = 0', 'if _o():', '    {R2:fn1}'],
+        ['x1 = 0; x1__s = {d1}', 'from m1 import *', 'fn1__s = -1', 'if _o():', '    {R1}', 'fn1 = 0; fn1__s = {d2}', 'if _o():', '    {R2}'], c02=False, c03=False)
+feature('walrus-inside-own-assign-value',
+        ['{B1:$X/assign} = _id({B2:$X/walrus} := 0, 1)', 'if _o():', '    {R1:$X}', '{R2:$X}'],
+        ['$X = _id($X := 0, $X__s := {d2}, 1); $X__s = {d1}', 'if _o():', '    {R1}', '{R2}'], binds='$X', c02=True, c03=True)
+feature('walrus-last-in-own-assign-value',
+        ['{B1:$X/assign} = _id({B2:$X/walrus} := 0)', 'if _o():', '    {R1:$X}', '{R2:$X}'],
+        ['$X = _id($X := 0, $X__s := {d2}); $X__s = {d1}', 'if _o():', '    {R1}', '{R2}'], binds='$X', c02=True, c03=True)
+feature('walrus-inside-own-with-item',
+        ['with _cm({B2:$X/walrus} := 0) as {B1:$X/with-target}:', '    if _o():', '        {R1:$X}', '{R2:$X}'],
+        ['with _cm($X := 0, _null($X__s := {d2})) as $X:', '    $X__s = {d1}', '    if _o():', '        {R1}', '{R2}'], binds='$X', c02=True, c03=True)
+feature('ifexp-test-walrus-reads-itself',
+        ['{B1:$X/assign} = 0', 'zz = ({R1:$X} if ({B2:$X/walrus} := _id(1, {R2:$X})) else 0)', '{R3:$X}'],
+        ['$X = 0; $X__s = {d1}', 'zz = ({R1} if _id($X := _id(1, {R2}), $X__s := {d2}) else 0)', '{R3}'], binds='$X', c02=True, c03=True)
+feature('comp-if-walrus-reads-itself',
+        ['{B1:$X/assign} = 0', 'zz = [{R1:$X} for q in _it() if ({B2:$X/walrus-in-comp} := _id(1, {R2:$X}))]', '{R3:$X}'],
+        ['$X = 0; $X__s = {d1}', 'zz = [{R1} for q in _it() if _id($X := _id(1, {R2}), $X__s := {d2})]', '{R3}'], binds='$X', c02=False, c03=False)
+
 # ---- branching
 feature('elif-chain',
         ['if _o():', '    {B1:$X/assign} = 0', 'elif _o():', '    {B2:$X/assign} = 1', 'elif _o():', '    {R1:$Y}', 'else:', '    {B3:$Y/assign} = 2', '{R2:$X}', '{R3:$Y}'],
@@ -465,7 +488,8 @@ FEATURES['builtin-read-before-module-rebinding']['toplevel'] = True
 FEATURES['walrus-under-and']['coarse'] = 'conditional-walrus'
 FEATURES['walrus-in-ternary-branch']['coarse'] = 'conditional-walrus'
 
-for _n in ('star-import-project', 'star-import-conditional-names', 'star-import-stdlib', 'star-import-package', 'star-import-chain', 'star-import-chain3'):
+for _n in ('star-import-project', 'star-import-conditional-names', 'star-import-stdlib', 'star-import-package', 'star-import-chain', 'star-import-chain3',
+           'star-import-then-rebind', 'rebind-then-star-import'):
     FEATURES[_n]['toplevel'] = True
 
 
